@@ -1,119 +1,11 @@
-import QM.Quote
-import QM.Unquote
-import QM.Extract
-import QM.Strv
-import QM.Parser
-import QM.Path
-import QM.Port
-import QM.ConvDrv
-import QM.Proc
-import QM.Fs
+import QM.Driver
 
-def hexVal (c : Char) : Nat :=
-  if '0' ≤ c ∧ c ≤ '9' then c.toNat - 48 else c.toNat - 87
-
-def hexBytes : List Char → List UInt8
-  | a :: b :: r => UInt8.ofNat (hexVal a * 16 + hexVal b) :: hexBytes r
-  | _ => []
-
-def hexd (s : String) : List Char :=
-  match String.fromUTF8? (ByteArray.mk (hexBytes (s.toList.drop 1)).toArray) with
-  | some str => str.toList
-  | none => []
-
-def hexDigitC (n : Nat) : Char := if n < 10 then Char.ofNat (48 + n) else Char.ofNat (87 + n)
-def hexe (s : List Char) : String :=
-  "x" ++ String.ofList ((String.ofList s).toUTF8.toList.flatMap fun b => [hexDigitC (b.toNat / 16), hexDigitC (b.toNat % 16)])
-
-def collectImpl (next : List Char → P.Res) : Nat → List Char → List (List Char)
-  | 0, _ => []
-  | fuel+1, s => match next s with
-    | .word w rest => w :: collectImpl next fuel rest
-    | _ => []
-
-def env : Parse.Env :=
-  { keyChar := fun c => c.isAlphanum || c == '-' || c == 'é', validRaw := fun r => (P.unquoteValue true r).isSome }
-
-def step (line : String) : String :=
-  match line.splitOn "\t" with
-  | "quote_words" :: ws => "ok " ++ hexe (P.quoteWords (ws.map hexd))
-  | ["unquote", a] => match P.unquoteValue true (hexd a) with
-      | some s => "ok " ++ hexe s
-      | none => "err"
-  | ["split_word", a] => "ok " ++ " ".intercalate ((collectImpl P.Impl.next ((hexd a).length + 1) (hexd a)).map hexe)
-  | ["split_strv", a] => "ok " ++ " ".intercalate ((collectImpl P.Impl.strvNext ((hexd a).length + 1) (hexd a)).map hexe)
-  | ["parse", a] => match Parse.parse env (hexd a) with
-      | .ok u => "ok " ++ hexe (Parse.printUnit u)
-      | .error _ => "err"
-  | ["convert", p, t] =>
-      let path := hexd p
-      match Parse.parse Cv.parseEnv (hexd t) with
-      | .error _ => "load-err"
-      | .ok u =>
-        let name := Cv.fileName path
-        let ty := Cv.extension name
-        let self : Cv.Info := { serviceName := Cv.serviceNameOf path u, resourceName := if ty == Cv.s "build" then (Cv.builtImageName u).getD [] else [] }
-        let E : Cv.Env := { info := fun n => if n == name then some self else none }
-        let self := if ty == Cv.s "container" then
-            { self with resourceName :=
-                let n := Cv.containerName name u
-                -- %N ↦ service name; anything else with % is unresolvable
-                let r := (String.ofList n).replace "%N" (String.ofList self.serviceName) |>.toList
-                if r.contains '%' then [] else r }
-          else self
-        let E : Cv.Env := { info := fun n => if n == name then some self else none, pathExists := fun p => p == Cv.s "/dev/null" }
-        if ty == Cv.s "container" then
-          match Cv.fromContainer E path u with
-          | none => "out-of-model"
-          | some (.ok (svc, _)) => "ok " ++ hexe (Parse.printUnit svc)
-          | some (.error e) => "err " ++ Cv.errClass e
-        else
-        let r : Except Cv.Err MM.SUnit :=
-          if ty == Cv.s "image" then (Cv.fromImage E path u).map (·.1)
-          else if ty == Cv.s "volume" then (Cv.fromVolume E path u).map (·.1)
-          else if ty == Cv.s "network" then (Cv.fromNetwork E path u).map (·.1)
-          else if ty == Cv.s "pod" then Cv.fromPod E path u []
-          else if ty == Cv.s "kube" then Cv.fromKube E path u
-          else if ty == Cv.s "build" then Cv.fromBuild E path u
-          else .error (.internal [] [])
-        match r with
-        | .ok svc => "ok " ++ hexe (Parse.printUnit svc)
-        | .error e => "err " ++ Cv.errClass e
-  | "tree" :: nd :: rest =>
-      let n := nd.toNat!
-      let dirs := (rest.take n).map hexd
-      let rec pairsT : List String → List (List Char × List Char)
-        | a :: b :: r => (hexd a, hexd b) :: pairsT r
-        | _ => []
-      let t : Cv.Tree := { searchDirs := dirs, files := pairsT (rest.drop n) }
-      let r := Cv.runTree t
-      s!"{r.loadErrors} {r.dropinErrors} " ++ " ".intercalate (r.services.map fun (q, o) =>
-        hexe q.path ++ "=" ++ (match o with
-          | .ok svc => "ok:" ++ hexe (Parse.printUnit svc)
-          | .err e => "err:" ++ Cv.errClass e
-          | .outOfModel => "oom"))
-  | "process" :: rest =>
-      let rec pairs : List String → List (String × String)
-        | a :: b :: r => (a, b) :: pairs r
-        | _ => []
-      let qs := (pairs rest).filterMap fun (p, t) =>
-        match Parse.parse Cv.parseEnv (hexd t) with
-        | .ok u => some ({ path := hexd p, unit := u } : Cv.QUnit)
-        | .error _ => none
-      let outs := Cv.processUnits qs
-      " ".intercalate (outs.map fun (q, o) =>
-        hexe q.path ++ "=" ++ (match o with
-          | .ok svc => "ok:" ++ hexe (Parse.printUnit svc)
-          | .err e => "err:" ++ Cv.errClass e
-          | .outOfModel => "oom"))
-  | ["clean", a] => "ok " ++ hexe (Pth.cleaned (hexd a))
-  | ["port_range", a] => "ok " ++ toString (Port.isPortRange (hexd a))
-  | _ => "bad-op"
+/-! `qmodel`: the model behind the same line protocol as `quadlet-rs --verif-driver`. -/
 
 partial def loop (h : IO.FS.Stream) (out : IO.FS.Stream) : IO Unit := do
   let line ← h.getLine
   if line.isEmpty then return ()
-  out.putStrLn (step (line.dropRightWhile (· == '\n')))
+  out.putStrLn (Drv.step (line.dropRightWhile (· == '\n')))
   loop h out
 
 def main : IO Unit := do
